@@ -130,6 +130,17 @@ def _shapes(tier: str, seed: int) -> List[dict]:
                                   ("CLambda", ("Attr", ("Id", ("$", 1), ()), NEW), "Any",
                                    ("Lambda", ("Id", ("$", 2), (NEW,)), ("Compare", "Lt", pv2, ("Attr", ("Id", ("$", 2), ()), NEW))))))),
     ]
+    explicit += [
+        # collection lambdas without a predicate: the owner path is still a path
+        ("CLambda", pv1, "Any", None), ("CLambda", pv2, "All", None), ("CLambda", gen.path_shape(3, root=V), "Any", None),
+        ("UnaryOp", "Not", ("CLambda", pv2, "Any", None)),
+        ("CLambda", ("Id", NEW, ()), "Any", ("Lambda", ("Id", ("$", 1), ()),
+                                            ("BoolOp", "Or", ("CLambda", pv1, "Any", None),
+                                             ("CLambda", ("Attr", ("Id", ("$", 1), ()), NEW), "All", None)))),
+        # named parameters whose VALUE is a path rooted at the variable
+        ("Call", ("Id", "between", ("shop",)), [("NamedParam", ("Id", "value", ()), pv1), ("NamedParam", ("Id", "lo", ()), ("Int", "1")),
+                                                ("NamedParam", ("Id", NEW, ()), pv2)]),
+    ]
     exprs += explicit
     seen = set()
     for e in exprs:
